@@ -3,10 +3,12 @@
 // Contracts for the deductive verifier under /verif (comment-only file).
 package utf8
 
-//@ pure func validSpec(src string) bool
+//@ pure func validSpec(src text) bool
+//@ pure func correctSpec(src text, repl text) text
 //@ func Validate assumed "wrapper of native validate_utf8_fast: a function of the bytes"
-//@   ensures result == validSpec(string(src))
+//@   ensures result == validSpec(txt(src))
 //@ func CorrectWith assumed "append loop around native validate_utf8; ownership facts only (loop not yet under contract)"
 //@   modifies dst[_]
 //@   ensures base(result) == base(dst) || fresh(result)
 //@   ensures base(result) != 0
+//@   ensures len(dst) == 0 ==> txt(result) == correctSpec(txt(src), txt(repl))
